@@ -613,8 +613,10 @@ func gen(t *rapid.T) Case {
 	c := Case{
 		Role:    rapid.SampledFrom([]string{"C", "S"}).Draw(t, "role"),
 		Variant: rapid.SampledFrom(variants).Draw(t, "variant"),
-		IvlMs:   rapid.SampledFrom([]int{1, 10, 100, 250, 1000, 1000, 2000, 5000, 20000, 60000}).Draw(t, "ivl"),
-		Cut:     rapid.IntRange(0, 4).Draw(t, "cut"),
+		IvlMs: rapid.SampledFrom([]int{1, 10, 100, 250, 1000, 1000, 2000, 5000, 20000, 60000,
+			// doubling these passes the 60 s cap by less than a second (60.8 s, 60.8 s, 60.5 s, 60.002 s)
+			950, 3800, 30250, 30001}).Draw(t, "ivl"),
+		Cut: rapid.IntRange(0, 4).Draw(t, "cut"),
 	}
 	c.NoBackoff = rapid.IntRange(0, 3).Draw(t, "nobackoff") == 0
 	// horizon: enough for the whole ladder to 8 rungs past the cap (bounded number of emissions)
